@@ -63,7 +63,7 @@ int main(int argc, char** argv) {
 	std::vector<int> flagsets;
 	for (auto& fs : rxh::vm_flagsets()) { if (th) flagsets.push_back(fs.flags); else if (!strcmp(fs.name, "int-soft-light") || !strcmp(fs.name, "jit-hard-light") || !strcmp(fs.name, "sec-soft-light") || !strcmp(fs.name, "jit-soft-fast")) flagsets.push_back(fs.flags); }
 #ifdef RX_NO_ENVALLOC
-	const int depth = atoi(args.get("depth", th ? "5" : "4").c_str());   // sanitizer build: forks are slower, one level less
+	const int depth = atoi(args.get("depth", th ? "5" : "3").c_str());   // sanitizer build: forks are much slower; the deep search is the plain build's job
 #else
 	const int depth = atoi(args.get("depth", th ? "6" : "5").c_str());
 #endif
